@@ -5,6 +5,7 @@ use firv::serde_json::{json, Value};
 use fr::images::*;
 use fr::pixels::I32;
 use fr::{ImageView, ImageViewMut};
+use firv::containers::{UserView, UserViewMut};
 use std::num::NonZeroU32;
 
 #[derive(Clone, Copy, Debug)]
@@ -16,7 +17,9 @@ pub struct SCase {
     m: [u32; 4],
 }
 
-const KINDS: [&str; 7] = ["TypedImage(owned)", "TypedImage(slice, oversized)", "TypedImageRef", "TypedCroppedImage", "TypedCroppedImage(nested)", "TypedCroppedImageMut", "TypedCroppedImageMut(nested)"];
+const KINDS: [&str; 9] = ["TypedImage(owned)", "TypedImage(slice, oversized)", "TypedImageRef", "TypedCroppedImage", "TypedCroppedImage(nested)", "TypedCroppedImageMut", "TypedCroppedImageMut(nested)",
+    // view types defined in the harness that implement only the required trait methods: every split is the trait's default implementation
+    "UserView(trait defaults)", "UserViewMut(trait defaults)"];
 
 fn tag(x: u32, y: u32) -> i32 {
     // identity tag in the low 20 bits (long views are 1 pixel thick, so x + y stays unique there)
@@ -376,6 +379,10 @@ fn with_mut_view<R>(c: &SCase, par: &mut Parent, f: impl FnOnce(&mut dyn MutSpli
             let mut v = TypedCroppedImageMut::from_ref(&mut p, c.m[0], c.m[1], c.w, c.h).unwrap();
             f(&mut v)
         }
+        8 => {
+            let mut v = UserViewMut::<I32>::new(&mut par.buf, pw, c.m[0], c.m[1], c.w, c.h);
+            f(&mut v)
+        }
         _ => {
             let (l1, t1, w1, h1, l2, t2) = nested_outer(c, par);
             let p = TypedImage::<I32>::from_pixels_slice(pw, ph, &mut par.buf).unwrap();
@@ -389,11 +396,158 @@ fn with_mut_view<R>(c: &SCase, par: &mut Parent, f: impl FnOnce(&mut dyn MutSpli
 /// object-safe access to the generic mutable split writer
 trait MutSplit {
     fn go(&mut self, by_height: bool, start: u32, size: u32, parts: u32, interleave: bool) -> Option<Vec<u32>>;
+    fn mixed(&mut self, x0: u32, y0: u32, w: u32, h: u32, t: &mut Tally);
 }
 impl<V: ImageViewMut<Pixel = I32>> MutSplit for V {
     fn go(&mut self, by_height: bool, start: u32, size: u32, parts: u32, interleave: bool) -> Option<Vec<u32>> {
         write_parts(self, by_height, start, size, parts, interleave)
     }
+    fn mixed(&mut self, x0: u32, y0: u32, w: u32, h: u32, t: &mut Tally) {
+        check_mixed(self, x0, y0, w, h, t)
+    }
+}
+
+/// Split-of-split compositions on *mutable* parts: each part of a mutable split is (a) read through its `ImageView`
+/// side, (b) split again read-only along both axes, (c) split again mutably along both axes, every sub-part adding
+/// 1<<20 to the pixels it exposes - so afterwards every pixel of the band must have been incremented exactly twice
+/// (once per axis) and nothing outside the band at all.
+fn check_mixed<V: ImageViewMut<Pixel = I32>>(v: &mut V, x0: u32, y0: u32, w: u32, h: u32, t: &mut Tally) {
+    for by_height in [true, false] {
+        let extent = if by_height { h } else { w };
+        if extent == 0 {
+            continue;
+        }
+        let mut triples = vec![(0u32, extent, 1u32), (0, extent, extent.min(2)), (0, extent, extent)];
+        if extent >= 3 {
+            triples.push((1, extent - 1, 2));
+            triples.push((1, extent - 2, extent - 2));
+        }
+        triples.dedup();
+        for (start, size, parts) in triples {
+            {
+                let ps = if by_height { v.split_by_height_mut(start, nz(size), nz(parts)).map(|p| p.into_iter().map(|x| Box::new(x) as Box<dyn MutPart>).collect::<Vec<_>>()) } else { v.split_by_width_mut(start, nz(size), nz(parts)).map(|p| p.into_iter().map(|x| Box::new(x) as Box<dyn MutPart>).collect::<Vec<_>>()) };
+                t.stats.count("mixed_mutability_compositions", 1);
+                let Some(mut ps) = ps else {
+                    t.fail("unexpected_none", format!("mutable split(start={}, size={}, parts={}) of extent {} returned None", start, size, parts, extent));
+                    continue;
+                };
+                let sizes: Vec<u32> = ps.iter().map(|p| p.ext(by_height)).collect();
+                if ps.len() != parts as usize || balanced(&sizes, size, parts).is_err() {
+                    t.fail("part_size", format!("mutable split(start={}, size={}, parts={}) of extent {}: extents {:?}", start, size, parts, extent, sizes));
+                    continue;
+                }
+                let mut off = start;
+                for (i, p) in ps.iter_mut().enumerate() {
+                    let (px, py, pw, ph) = if by_height { (x0, y0 + off, w, sizes[i]) } else { (x0 + off, y0, sizes[i], h) };
+                    p.compose(px, py, pw, ph, t);
+                    off += sizes[i];
+                }
+            }
+            // read back through the parent view and restore
+            let mut ok = true;
+            for (y, row) in v.iter_rows_mut(0).enumerate() {
+                for (x, p) in row.iter_mut().enumerate() {
+                    let along = if by_height { y as u32 } else { x as u32 };
+                    let in_band = along >= start && along < start + size;
+                    let incs = if in_band { (w > 0 && h > 0) as i32 * 2 } else { 0 };
+                    let expect = tag(x0 + x as u32, y0 + y as u32) + (incs << 20);
+                    if p.0 != expect && ok {
+                        ok = false;
+                        t.fail("not_exactly_once", format!("after mutable split-of-split of the parts of split(start={}, size={}, parts={}) along {}: pixel ({},{}) = {:#x}, expected {:#x}", start, size, parts, if by_height { "height" } else { "width" }, x, y, p.0, expect));
+                    }
+                    p.0 = tag(x0 + x as u32, y0 + y as u32);
+                }
+            }
+        }
+    }
+}
+
+/// object-safe access to a mutable part
+trait MutPart {
+    fn ext(&self, by_height: bool) -> u32;
+    fn compose(&mut self, x0: u32, y0: u32, w: u32, h: u32, t: &mut Tally);
+}
+impl<V: ImageViewMut<Pixel = I32>> MutPart for V {
+    fn ext(&self, by_height: bool) -> u32 {
+        if by_height { self.height() } else { self.width() }
+    }
+    fn compose(&mut self, x0: u32, y0: u32, w: u32, h: u32, t: &mut Tally) {
+        // (a) the read side of a mutable part, (b) its read-only splits
+        if !check_rect_masked(self, x0, y0, w, h, t) {
+            return;
+        }
+        check_level2(self, x0, y0, w, h, t);
+        // (c) mutable splits of the part along both axes
+        for axis_h in [true, false] {
+            let e = if axis_h { h } else { w };
+            // invalid requests on a part must be refused like on any view
+            for (st, sz, k) in [(0u32, e + 1, 1u32), (1, e.max(1), 1), (0, e.max(1), e.max(1) + 1), (e, 1, 1), (u32::MAX, 1, 1), (1, u32::MAX, 1)] {
+                let some = if axis_h { self.split_by_height_mut(st, nz(sz), nz(k)).is_some() } else { self.split_by_width_mut(st, nz(sz), nz(k)).is_some() };
+                t.stats.count("mut_split_of_split_calls", 1);
+                if some != expect_some(e, st, sz, k) {
+                    t.fail("unexpected_some", format!("mutable split-of-split(start={}, size={}, parts={}) of a part of extent {} returned Some", st, sz, k, e));
+                }
+            }
+            if e == 0 {
+                continue;
+            }
+            let k = e.min(3);
+            let (st, sz) = if e >= 2 && (x0 + y0) % 2 == 1 { (1, e - 1) } else { (0, e) };
+            let k = k.min(sz);
+            t.stats.count("mut_split_of_split_calls", 1);
+            let sub = if axis_h { self.split_by_height_mut(st, nz(sz), nz(k)).map(|s| s.into_iter().map(|x| Box::new(x) as Box<dyn RowsMut>).collect::<Vec<_>>()) } else { self.split_by_width_mut(st, nz(sz), nz(k)).map(|s| s.into_iter().map(|x| Box::new(x) as Box<dyn RowsMut>).collect::<Vec<_>>()) };
+            let mut wrote = false;
+            {
+                let sub = sub;
+                match sub {
+                    None => t.fail("unexpected_none", format!("mutable split-of-split(start={}, size={}, parts={}) of a part of extent {} returned None", st, sz, k, e)),
+                    Some(mut subs) => {
+                        let sizes: Vec<u32> = subs.iter().map(|p| p.dims()).map(|(a, b)| if axis_h { b } else { a }).collect();
+                        if subs.len() != k as usize || balanced(&sizes, sz, k).is_err() {
+                            t.fail("part_size", format!("mutable split-of-split(start={}, size={}, parts={}) of extent {}: extents {:?}", st, sz, k, e, sizes));
+                        }
+                        for s in subs.iter_mut() {
+                            s.add(1 << 20);
+                        }
+                        wrote = true;
+                    }
+                }
+            }
+            // the row/column before `st` was not part of the sub-band: add through the part itself
+            if wrote && st == 1 {
+                for (y, row) in self.iter_rows_mut(0).enumerate() {
+                    for (x, p) in row.iter_mut().enumerate() {
+                        if (axis_h && y == 0) || (!axis_h && x == 0) {
+                            p.0 += 1 << 20;
+                        }
+                    }
+                }
+            }
+        }
+    }
+}
+
+trait RowsMut {
+    fn dims(&self) -> (u32, u32);
+    fn add(&mut self, v: i32);
+}
+impl<V: ImageViewMut<Pixel = I32>> RowsMut for V {
+    fn dims(&self) -> (u32, u32) {
+        (self.width(), self.height())
+    }
+    fn add(&mut self, v: i32) {
+        let w = self.width() as usize;
+        for row in self.iter_rows_mut(0) {
+            for p in row[..w].iter_mut() {
+                p.0 = p.0.wrapping_add(v);
+            }
+        }
+    }
+}
+
+/// `check_rect` for a view whose pixels may already carry increments above bit 20 (only the tag is compared).
+fn check_rect_masked<V: ImageView<Pixel = I32>>(v: &V, x0: u32, y0: u32, w: u32, h: u32, t: &mut Tally) -> bool {
+    check_rect(v, x0, y0, w, h, t)
 }
 fn write_parts_dyn(v: &mut dyn MutSplit, by_height: bool, start: u32, size: u32, parts: u32, interleave: bool) -> Option<Vec<u32>> {
     v.go(by_height, start, size, parts, interleave)
@@ -508,7 +662,7 @@ pub fn run(ctx: &mut Ctx) {
     let max: u32 = if ctx.is_miri { 3 } else if ctx.quick() { 12 } else { 34 };
     let margins: Vec<[u32; 4]> = vec![[0, 0, 0, 0], [1, 2, 3, 1], [2, 0, 0, 3]];
     let mut cases = Vec::new();
-    for kind in 0..7u8 {
+    for kind in 0..9u8 {
         for w in 0..=max {
             for h in 0..=max {
                 for m in &margins {
@@ -570,6 +724,15 @@ pub fn run(ctx: &mut Ctx) {
                     let v = TypedCroppedImageMut::from_ref(&mut p, x0, y0, c.w, c.h).unwrap();
                     check_view(&v, x0, y0, c.w, c.h, &mut t, deep);
                 }
+                7 => {
+                    let v = UserView::<I32>::new(&par.buf, pw, x0, y0, c.w, c.h);
+                    check_view(&v, x0, y0, c.w, c.h, &mut t, deep);
+                }
+                8 => {
+                    let mut b = par.buf.clone();
+                    let v = UserViewMut::<I32>::new(&mut b, pw, x0, y0, c.w, c.h);
+                    check_view(&v, x0, y0, c.w, c.h, &mut t, deep);
+                }
                 _ => {
                     let (l1, t1, w1, h1, l2, t2) = nested_outer(c, &par);
                     let mut b = par.buf.clone();
@@ -579,8 +742,12 @@ pub fn run(ctx: &mut Ctx) {
                     check_view(&v, x0, y0, c.w, c.h, &mut t, deep);
                 }
             }
-            if matches!(c.kind, 0 | 1 | 5 | 6) {
+            if matches!(c.kind, 0 | 1 | 5 | 6 | 8) {
                 check_view_mut(c, &mut t, interleave);
+                if !interleave {
+                    let (mut par, x0, y0) = build_parent(c);
+                    with_mut_view(c, &mut par, |v| v.mixed(x0, y0, c.w, c.h, &mut t));
+                }
             }
         },
     );
